@@ -5,6 +5,8 @@ import (
 	"fmt"
 	"math/rand"
 	"strings"
+
+	"github.com/piprate/json-gold/ld"
 )
 
 // ---- one abstract graph -> many JSON-LD documents denoting the same graph (C05) ----
@@ -611,4 +613,84 @@ func (g *Graph) ScopedContexts() (doc string, ok bool) {
 	var b strings.Builder
 	emitJSON(&b, top, &jsonStyle{colon: ":"}, 0)
 	return b.String(), true
+}
+
+// WithoutNumbers is the graph with its numeric literals dropped (a graph of texts, flags and links only).
+func (g *Graph) WithoutNumbers() *Graph {
+	h := NewGraph()
+	for _, n := range g.Nodes {
+		nn := h.AddNode(n.ID, n.Types...)
+		for _, p := range n.Props {
+			for _, v := range p.Values {
+				if !v.IsRef() {
+					switch v.Lit.(type) {
+					case int64, float64, int:
+						continue
+					}
+				}
+				nn.Add(p.Pred, v)
+			}
+		}
+	}
+	return h
+}
+
+// NormalFormVariant renders the document in the normal form itself - flattened and compacted with an empty context by the
+// harness's own JSON-LD processor: one @graph of id-sorted node objects, absolute IRIs, unwrapped scalars - and applies
+// at most one perturbation to it: a node object split in two adjacent objects with the same @id, or a node object repeated.
+func NormalFormVariant(text string, r *rand.Rand) (string, []string, error) {
+	v, ok := ReadableJSON(text)
+	if !ok {
+		return "", nil, fmt.Errorf("not JSON")
+	}
+	fl, err := ld.NewJsonLdProcessor().Flatten(v, map[string]any{}, ld.NewJsonLdOptions(""))
+	if err != nil {
+		return "", nil, err
+	}
+	applied := []string{"normal-form"}
+	if doc, ok := fl.(map[string]any); ok {
+		if nodes, ok := doc["@graph"].([]any); ok && len(nodes) > 0 {
+			var cands []int
+			for i, n := range nodes {
+				if m, ok := n.(map[string]any); ok && len(m) >= 3 {
+					cands = append(cands, i)
+				}
+			}
+			switch k := r.Intn(4); {
+			case k <= 1 && len(cands) > 0:
+				i := cands[r.Intn(len(cands))]
+				m := nodes[i].(map[string]any)
+				keys := SortedKeys(m)
+				var rest []string
+				for _, key := range keys {
+					if key != "@id" {
+						rest = append(rest, key)
+					}
+				}
+				rest = Shuffled(r, rest)
+				cut := 1 + r.Intn(len(rest)-1)
+				a, b := map[string]any{"@id": m["@id"]}, map[string]any{"@id": m["@id"]}
+				for j, key := range rest {
+					if j < cut {
+						a[key] = m[key]
+					} else {
+						b[key] = m[key]
+					}
+				}
+				out := append([]any{}, nodes[:i]...)
+				out = append(out, a, b)
+				out = append(out, nodes[i+1:]...)
+				doc["@graph"] = out
+				applied = append(applied, "split-node-object")
+			case k == 2:
+				i := r.Intn(len(nodes))
+				out := append([]any{}, nodes[:i+1]...)
+				out = append(out, nodes[i:]...)
+				doc["@graph"] = out
+				applied = append(applied, "repeated-node-object")
+			}
+		}
+	}
+	b, err := json.Marshal(fl)
+	return string(b), applied, err
 }
